@@ -216,15 +216,30 @@ func (w *World) SlotDuration() time.Duration { return time.Duration(w.P.SlotSeco
 func (w *World) Quiesce() error {
 	deadline := time.Now().Add(w.opt.Watchdog)
 	stable := 0
+	lastSeq := -1
 	pause := 20 * time.Microsecond
-	for {
-		extra := 0
+	extraOf := func() int {
 		if w.opt.ExtraGoroutines != nil {
-			extra = w.opt.ExtraGoroutines()
+			return w.opt.ExtraGoroutines()
 		}
+		return 0
+	}
+	for {
+		// The allowance (e.g. one goroutine per job of a real scheduler) and the log are
+		// read before and after the goroutine count: a goroutine of vouch that changes the
+		// job table or does anything observable in between makes the readings differ.
+		seq0 := w.Log.Seq()
+		extra0 := extraOf()
 		n := runtime.NumGoroutine()
-		if n <= w.baseline+extra && w.execDepth.Load() == 0 {
+		extra1 := extraOf()
+		seq1 := w.Log.Seq()
+		extra := extra0
+		if extra1 < extra {
+			extra = extra1
+		}
+		if n <= w.baseline+extra && w.execDepth.Load() == 0 && seq0 == seq1 && extra0 == extra1 && (stable == 0 || seq1 == lastSeq) {
 			stable++
+			lastSeq = seq1
 			if stable >= 3 {
 				return nil
 			}
